@@ -84,6 +84,10 @@ MinOf(S) == CHOOSE t \in S : \A u \in S : t <= u
 FieldsOfInst(i) == FieldsOf(ClientOf(i), RoundOf(i))
 
 Pooled(e) == e.tr \in {"udp", "udpmulti", "pc"}
+Lossless == {"tcp", "tcpreal", "pc", "tcptsig"}
+\* what a handler is shown by ResponseWriter.TsigStatus() for a request that carried no TSIG / a TSIG made with the shared
+\* secret / a TSIG whose MAC was altered / a TSIG under a key name the server has no secret for
+StatusFor(kind) == CASE kind = "none" -> "none" [] kind = "good" -> "ok" [] OTHER -> "err"
 
 Init == l = 1 /\ x = XInit /\ cur = [c \in CIds |-> -1] /\ sentAt = [i \in TraceClients |-> 0] /\ out = {} /\ HWInit /\ TLCSet(3, <<>>)
 
@@ -177,7 +181,16 @@ Next ==
                     ELSE IF Ev.req.qname # NameOf(Ev.c, Ev.round) THEN MarkBadC(l, "client-got-foreign-reply:qname")
                     ELSE IF Ev.req.tok # ReplyTokOf(First4(TokOf(Ev.c, Ev.round))) THEN MarkBadC(l, "client-got-foreign-reply:token")
                     ELSE TRUE
-       [] Ev.ev = "lost" -> UNCHANGED <<x, cur, sentAt, out>>
+       [] Ev.ev = "lost" ->
+            \* an attempt that ended without reply.  Running into the deadline is never a verdict (loss on real UDP, a loaded
+            \* machine); an exchange that FAILS -- ErrId, a reply that does not decode, a connection that ends -- on a
+            \* transport that loses and reorders nothing means the client was given something else than the reply to its request
+            /\ UNCHANGED <<x, cur, sentAt, out>>
+            /\ IF Ev.tr \in Lossless /\ Ev.err = "other" THEN MarkBadC(l, "exchange-failed-on-lossless-transport") ELSE TRUE
+       [] Ev.ev = "hstat" ->
+            \* the TSIG status a handler is shown belongs to the request it is handling, not to an earlier one on the connection
+            /\ UNCHANGED <<x, cur, sentAt, out>>
+            /\ IF Ev.seen = StatusFor(Ev.kind) THEN TRUE ELSE MarkBadC(l, "handler-saw-tsig-status-of-another-request:" \o Ev.kind)
        [] OTHER -> MarkBadC(l, "unknown-event") /\ UNCHANGED <<x, cur, sentAt, out>>
 
 \* the machine itself never mixes (Decode before Release): checked along the way
